@@ -317,7 +317,9 @@ package keeper
 //@ axiom sumsGeAll(H, i)
 //@   ensures forall d:Str :: ESC(H, d) >= wEsc(H, i, d) && INC(H, d) >= wInc(H, i, d) && OUT(H, d) >= wOut(H, i, d)
 
-//@ family prevTime key global:types.PreviousBlockTimeKey value bytes
+//@ family prevTime key global:types.PreviousBlockTimeKey value gogotypes.Timestamp
+// the stored block time, in nanoseconds
+//@ define TSNANOS(ts) = ts.Seconds * 1000000000 + ts.Nanos
 
 // The expiry iteration (helper with callback; inlined into BeginBlocker together with the closure).
 //@ func Keeper.IterateHTLCExpiredQueueByHeight(ctx, height, op)
@@ -339,7 +341,7 @@ package keeper
 
 //@ define CUR(d) = ite(has(supplies, d), SUP(d).CurrentSupply.Amount, 0)
 //@ define uniqueDenoms(s) = forall a:Int :: forall b:Int :: 0 <= a && a < b && b < len(s) ==> s[a].Denom != s[b].Denom
-//@ define PREVT = ite(has(prevTime), uf("decode_time", get(prevTime)), time)
+//@ define PREVT = ite(has(prevTime), TSNANOS(get(prevTime)), time)
 //@ define zeroSup(d) = with(with(with(with(zero(get(supplies, d)), "IncomingSupply", coin(d, 0)), "OutgoingSupply", coin(d, 0)), "CurrentSupply", coin(d, 0)), "TimeLimitedCurrentSupply", coin(d, 0))
 //@ define R0(d) = old(ite(has(supplies, d), get(supplies, d), zeroSup(d)))
 //@ define inWindow(a, dt) = a.SupplyLimit.TimeLimited && R0(a.Denom).TimeElapsed + dt < a.SupplyLimit.TimePeriod
@@ -351,18 +353,17 @@ package keeper
 //@      && SUP(a.Denom).CurrentSupply == R0(a.Denom).CurrentSupply
 //@ define elapsedOK = forall d:Str :: has(supplies, d) ==> 0 <= SUP(d).TimeElapsed && SUP(d).TimeElapsed <= 2305843009213693952
 
-// Timestamp (de)serialisation through gogoproto length-prefixed encoding: assumed contracts (not verified).
+// The previous block time is stored as a protobuf timestamp (whole seconds + nanoseconds) and read back as the same time.
 //@ func Keeper.GetPreviousBlockTime(ctx)
 //@   property C03, C04, C13
-//@   trusted
 //@   returns blockTime, found
-//@   ensures decoded: found == has(prevTime) && (found ==> blockTime == uf("decode_time", get(prevTime)))
+//@   ensures decoded: found == has(prevTime) && (found ==> blockTime == TSNANOS(get(prevTime)))
 //@   nopanic
 //@ end
 //@ func Keeper.SetPreviousBlockTime(ctx, blockTime)
 //@   property C03, C04, C13
-//@   trusted
 //@   modifies prevTime
+//@   ensures stored: has(prevTime) && TSNANOS(get(prevTime)) == blockTime
 //@   nopanic
 //@ end
 
@@ -385,6 +386,8 @@ package keeper
 //@   ensures keeps_wf: allSupWF
 //@   ensures counters_unchanged: forall d:Str :: CIN(d) == old(CIN(d)) && COUT(d) == old(COUT(d)) && CUR(d) == old(CUR(d))
 //@   ensures window: forall j:Int :: 0 <= j && j < len(ASSETS) ==> windowOK(ASSETS[j], dt)
+// the next block measures its time step from this block's time (whenever there is an asset to keep a window for)
+//@   ensures clock: len(ASSETS) > 0 ==> has(prevTime) && TSNANOS(get(prevTime)) == time
 //@   nopanic
 //@ end
 
